@@ -558,6 +558,8 @@ func (h *vHist) run(inc vInc) (hung bool) {
 						h.order = append(h.order, o.a)
 					}
 					h.accepted[o.a] = true
+				} else if errors.Is(err, errSizeTooLarge) {
+					acc = 3
 				} else if !errors.Is(err, ErrQueueIsFull) {
 					acc = 2
 				}
@@ -1134,6 +1136,10 @@ func TestVerifC01(t *testing.T) {
 	// (1d) itemDispatchingFinish with storage errors (the error-only fallback path): a client that fails chosen calls
 	vRunFinishErrorCases(out, rng)
 
+	// (1e) which queue newQueueBatch builds for a configuration (persistent iff a storage is configured; signal, owner
+	// id, capacity, block_on_overflow and the number of consumers reach the queue)
+	vRunQueueKindCases(out, rng)
+
 	// (2) codecs
 	for i := 0; i < vBudget(80, 10); i++ {
 		var buf []byte
@@ -1439,6 +1445,116 @@ func vRunFinishErrorCases(out *vOut, rng *vRand) {
 			if listedBefore && inMem && !listedAfter {
 				out.Oracle("finish-with-storage-errors-unlists-a-dispatched-request", term, fmt.Sprintf("index %d", it[0]))
 			}
+		}
+	}
+}
+
+// ---- newQueueBatch: the queue built for a configuration -------------------------------------------------
+type vRREnc struct{}
+
+func (vRREnc) Marshal(request.Request) ([]byte, error)   { return []byte{0}, nil }
+func (vRREnc) Unmarshal([]byte) (request.Request, error) { return nil, errors.New("unused") }
+
+func vQCfgTerm(cfg Config, storageIdx int) string {
+	sizer := 0
+	switch cfg.Sizer {
+	case request.SizerTypeItems:
+		sizer = 1
+	case request.SizerTypeBytes:
+		sizer = 2
+	}
+	st := "None"
+	if cfg.StorageID != nil {
+		st = "(Some " + vNat(storageIdx) + ")"
+	}
+	bt := "None"
+	if cfg.Batch != nil {
+		bt = "(Some (" + vZ(int64(cfg.Batch.FlushTimeout)) + ", " + vZ(cfg.Batch.MinSize) + ", " + vZ(cfg.Batch.MaxSize) + "))"
+	}
+	return "(" + vBool(cfg.Enabled) + ", " + vBool(cfg.WaitForResult) + ", " + vNat(sizer) + ", " + vZ(cfg.QueueSize) + ", " +
+		vBool(cfg.BlockOnOverflow) + ", " + st + ", " + vZ(int64(cfg.NumConsumers)) + ", " + bt + ")"
+}
+
+func vRunQueueKindCases(out *vOut, rng *vRand) {
+	signals := []pipeline.Signal{pipeline.SignalTraces, pipeline.SignalMetrics, pipeline.SignalLogs, pipeline.Signal{}}
+	owners := []component.ID{component.MustNewID("otlp"), component.MustNewIDWithName("otlp", "second"), component.MustNewID("debug")}
+	storages := []component.ID{component.MustNewID("file_storage"), component.MustNewIDWithName("file_storage", "b")}
+	n := vBudget(60, 6)
+	for i := 0; i < n; i++ {
+		sg, ow := rng.Intn(3), rng.Intn(len(owners))
+		cfg := Config{Enabled: true, Sizer: request.SizerTypeRequests, QueueSize: int64(1 + rng.Intn(1000)),
+			BlockOnOverflow: rng.Intn(2) == 0, NumConsumers: 1 + rng.Intn(8)}
+		if rng.Intn(2) == 0 {
+			cfg.Sizer = request.SizerTypeItems
+		}
+		stIdx := rng.Intn(len(storages))
+		if rng.Intn(3) != 0 {
+			id := storages[stIdx]
+			cfg.StorageID = &id
+		} else {
+			cfg.WaitForResult = rng.Intn(2) == 0
+		}
+		if rng.Intn(2) == 0 {
+			cfg.Batch = &BatchConfig{FlushTimeout: time.Duration(1+rng.Intn(500)) * time.Millisecond, MinSize: int64(rng.Intn(10)), MaxSize: int64(rng.Intn(3)) * 20}
+		}
+		set := Settings[request.Request]{Signal: signals[sg], ID: owners[ow], Telemetry: componenttest.NewNopTelemetrySettings(), Encoding: vRREnc{},
+			Sizers: map[request.SizerType]request.Sizer[request.Request]{
+				request.SizerTypeRequests: request.RequestsSizer[request.Request]{}, request.SizerTypeItems: request.NewItemsSizer()}}
+		legacy := cfg.Batch != nil && rng.Intn(3) == 0
+		qb, err := newQueueBatch(set, cfg, func(context.Context, request.Request) error { return nil }, legacy)
+		if err != nil {
+			out.Oracle("queue-kind-construction-fails", vQCfgTerm(cfg, stIdx), err.Error())
+			continue
+		}
+		kind := ""
+		oq, ok := qb.queue.(*obsQueue[request.Request])
+		var aq *asyncQueue[request.Request]
+		if ok {
+			aq, ok = oq.Queue.(*asyncQueue[request.Request])
+		}
+		if !ok {
+			out.Oracle("queue-kind-unknown-structure", vQCfgTerm(cfg, stIdx), fmt.Sprintf("%T", qb.queue))
+			continue
+		}
+		direct := ""
+		switch q := aq.readableQueue.(type) {
+		case *persistentQueue[request.Request]:
+			sIdx, gIdx, oIdx := 99, 99, 99
+			for k, x := range storages {
+				if x == q.set.storageID {
+					sIdx = k
+				}
+			}
+			for k, x := range signals[:3] {
+				if x == q.set.signal {
+					gIdx = k
+				}
+			}
+			for k, x := range owners {
+				if x == q.set.id {
+					oIdx = k
+				}
+			}
+			kind = "QPersistent " + vZ(q.set.capacity) + " " + vBool(q.set.blockOnOverflow) + " " + vNat(sIdx) + " " + vNat(gIdx) + " " + vNat(oIdx) + " " + vZ(int64(aq.numConsumers))
+			out.Stat("queue_kind_persistent", 1)
+			if cfg.StorageID == nil {
+				direct = "persistent queue without a configured storage"
+			} else if q.set.storageID != *cfg.StorageID || q.set.signal != set.Signal || q.set.id != set.ID || q.set.capacity != cfg.QueueSize || q.set.encoding == nil {
+				direct = fmt.Sprintf("settings do not reach the persistent queue: storage=%v signal=%v id=%v capacity=%d", q.set.storageID, q.set.signal, q.set.id, q.set.capacity)
+			}
+		case *memoryQueue[request.Request]:
+			kind = "QMemory " + vZ(q.cap) + " " + vBool(q.waitForResult) + " " + vBool(q.blockOnOverflow) + " " + vZ(int64(aq.numConsumers))
+			out.Stat("queue_kind_memory", 1)
+			if cfg.StorageID != nil {
+				direct = "a storage is configured but the queue is an in-memory queue: accepted requests are never stored"
+			}
+		default:
+			kind = fmt.Sprintf("QMemory 0 false false 0 (* %T *)", q)
+		}
+		term := "CQKind " + vNat(sg) + " " + vNat(ow) + " " + vQCfgTerm(cfg, stIdx) + " (" + kind + ")"
+		out.Case(true, term)
+		if direct != "" {
+			out.Oracle("configured-storage-not-used-by-the-queue", term, direct)
 		}
 	}
 }
